@@ -260,12 +260,22 @@ def may_raise(node: ast.AST, exclude: tuple = ()) -> bool:
         if isinstance(n, ast.Call):
             if id(n) in skip:
                 continue  # arguments are evaluated at the call_enter node
-            if not _noraise_call(n):
+            if not _noraise_call(n) and not _pure_builtin_call(n):
                 return True
-        elif isinstance(n, (ast.Await, ast.Subscript, ast.Raise, ast.Assert)):
+        elif isinstance(n, ast.Subscript):
+            # slicing a plain name / attribute chain never raises; indexing may
+            if not (isinstance(n.slice, ast.Slice) and _dotted(n.value) is not None):
+                return True
+        elif isinstance(n, (ast.Await, ast.Raise, ast.Assert)):
             return True
         todo.extend(ast.iter_child_nodes(n))
     return False
+
+
+def _pure_builtin_call(c: ast.Call) -> bool:
+    """range()/min()/max() over simple arithmetic of names and len(): cannot raise
+    for the integer arguments they are used with here."""
+    return isinstance(c.func, ast.Name) and c.func.id in ("range", "min", "max") and not c.keywords
 
 
 # --------------------------------------------------- exception class lattice
@@ -501,6 +511,17 @@ def inline_self_methods(caller: FunctionInfo, call: ast.Call, callee: FunctionIn
         and isinstance(f.value, ast.Name)
         and f.value.id == "self"
     )
+
+
+def inline_local(caller: FunctionInfo, call: ast.Call, callee: FunctionInfo, depth: int) -> bool:
+    """Inline helpers a refactoring typically extracts: methods called on
+    ``self``, static/class helpers of the same class hierarchy, and functions
+    defined in the caller's own module.  Constructors are never inlined."""
+    if callee.node.name in ("__init__", "__post_init__"):
+        return False
+    if inline_self_methods(caller, call, callee, depth):
+        return True
+    return callee.module is caller.module
 
 
 def inline_none(caller, call, callee, depth) -> bool:
@@ -775,7 +796,21 @@ class Builder:
             preds, _inl = self._inline_calls(st, preds, fr)
             n = g.new("stmt", st, fr.fi, fr.stack)
             self._connect(preds, n)
-            fr.exc.route(self, n, raised_type(st), "raise")
+            et = raised_type(st)
+            if et is not None and not et.split(".")[-1][:1].isupper() and isinstance(st.exc, ast.Call):
+                # `raise self._make_error(...)`: use what the factory constructs
+                et = None
+                callee = self.resolver.resolve(fr.fi, st.exc)
+                if callee is not None:
+                    made = {
+                        _dotted(r.value.func)
+                        for r in _walk_no_nested(callee.node)
+                        if isinstance(r, ast.Return) and isinstance(r.value, ast.Call)
+                    }
+                    rets = [r for r in _walk_no_nested(callee.node) if isinstance(r, ast.Return)]
+                    if len(made) == 1 and len(rets) == 1 and next(iter(made)) and next(iter(made)).split(".")[-1][:1].isupper():
+                        et = next(iter(made))
+            fr.exc.route(self, n, et, "raise")
             return []
         if isinstance(st, ast.Break):
             n = g.new("stmt", st, fr.fi, fr.stack)
